@@ -34,10 +34,24 @@ for l in open(sys.argv[1]):
     if e.get('Action')=='fail' and e.get('Test'):
         name=e['Package']+'::'+e['Test']
         if name in base: bad.append(name)
-print(len(bad)); sys.stderr.write('stable tests failing with patch: %s\n'%bad)
+open(sys.argv[1]+'.bad','w').write('\n'.join(sorted(set(bad))))
+print(len(set(bad))); sys.stderr.write('stable tests failing with patch: %s\n'%bad)
 PY
 )
-rm -f $log.suite.json
+# a test that failed may be a load flake of this sandbox (start-up waits of 10 s): re-run each alone, up to 3 times
+if [ "$suite" != "0" ]; then
+  still=0
+  for t in $(cat $log.suite.json.bad); do
+    pkg=${t%%::*}; name=${t##*::}; ok=1
+    for try in 1 2 3; do
+      if go1.26.8 test -vet=off -count=1 -run "^${name}\$" "$pkg" >> $log 2>&1; then ok=0; break; fi
+    done
+    echo "re-run of $t alone: $([ $ok = 0 ] && echo passes || echo FAILS)" >> $log
+    [ $ok = 0 ] || still=$((still+1))
+  done
+  suite=$still
+fi
+rm -f $log.suite.json $log.suite.json.bad
 cd /
 chattr -R -i $wt 2>/dev/null
 git -C /repo worktree remove --force $wt
